@@ -22,6 +22,7 @@ FOREIGN = bytes.fromhex("80000009030011223344")
 
 def build_case(u, need_auth=False, need_priv=False, force_discovered=False):
     cfg = gen.g_cfg(u, versions=("v3",), need_auth=need_auth, need_priv=need_priv)
+    cfg.shared_key_objects = u.below(4) == 0
     n = u.range(5, 32)
     engine = b"\x80" + u.take(n - 1)
     discovered = u.bool() or force_discovered
@@ -35,18 +36,23 @@ def build_case(u, need_auth=False, need_priv=False, force_discovered=False):
         # otherwise matching replies that must be rejected *and must not move the session's view of boots/time*:
         # from a foreign engine, below the session's security level (auth flag clear / sent in clear), or with a bad MAC.
         # With only=True nothing acceptable follows, the call times out, and the next request shows what was adopted.
-        inject = (None, None, None, "foreign_report", "foreign", "unauth", "clear", "badmac")[u.below(8)]
-        reqs.append({"op": op, "foreign": inject == "foreign", "inject": inject, "only": inject is not None and u.below(4) == 0})
+        # wrong_rid: everything matches (msgID, user, engine, security level, MAC) except the PDU's request-id
+        inject = (None, None, "wrong_rid", "foreign_report", "foreign", "unauth", "clear", "badmac")[u.below(8)]
+        reqs.append({"op": op, "foreign": inject == "foreign", "inject": inject, "only": inject is not None and (u.below(4) == 0 or inject == "wrong_rid")})
     times = [TIMES[u.below(len(TIMES))] if u.below(3) else (u.bits(4) >> 1, u.bits(4) >> 1) for _ in range(nreq + 3)]
     ctx = (None, None, b"", b"\x80\x00\x00\x01ctx")[u.below(4)]  # contextEngineID of the Reports: None = the agent's engine id
     # the first discovery datagram may be lost: refresh() then times out and the application retries it on the same session
     lost_probe = discovered and mode == "refresh" and u.below(3) == 0
+    # ... or it is answered by something undecodable: refresh() then fails with SnmpDecodeError and is retried likewise
+    probe_fault = u.choice(["lost", "garbage"]) if lost_probe else None
+    # a well-formed datagram from some other engine (other msgID) may reach the session before the agent's first Report
+    pre_stray = discovered and u.below(4) == 0
     return {"cfg": cfg, "engine": engine, "discovered": discovered, "mode": mode, "driver": driver, "reqs": reqs, "times": times, "report_ctx": ctx,
-            "lost_probe": lost_probe}
+            "lost_probe": lost_probe, "probe_fault": probe_fault, "pre_stray": pre_stray}
 
 
 def describe(c):
-    d = {k: c.get(k) for k in ("engine", "discovered", "mode", "driver", "reqs", "times", "report_ctx", "lost_probe")}
+    d = {k: c.get(k) for k in ("engine", "discovered", "mode", "driver", "reqs", "times", "report_ctx", "lost_probe", "probe_fault", "pre_stray")}
     d["cfg"] = c["cfg"].describe()
     d["_cfg"] = gen.cfg_to_json(c["cfg"])
     return d
@@ -96,7 +102,7 @@ def execute(G, c, slow=False):
                 wire.check_structure(pre, ("refresh",), d)
             except core.Failure as f:
                 problems.append(f)
-            return []
+            return [b"\x30\x05\x02\x01\x03\x04\x7f"] if c.get("probe_fault") == "garbage" else []
         if is_probe:
             kind = "probe" if st["known"] else "probe0"
             call = ("refresh",)
@@ -130,6 +136,11 @@ def execute(G, c, slow=False):
                 p = rb.pdu(rb.PDU_REPORT, m.get("request_id", 0), 0, 0, vb)
                 usm = rb.usm_params(E, b, t, m["user"], b"", b"")
                 rep_ = rb.msg_v3(m["msg_id"], 65507, 0, 3, usm, rb.scoped_pdu(c["report_ctx"], b"", p))
+            if kind == "probe0" and c.get("pre_stray") and not st.get("strayed"):
+                st["strayed"] = True
+                sm = dict(m)
+                sm["msg_id"] = (m["msg_id"] + 1) & 0x7FFFFFFF
+                outs.append(ag.build_report(rcfg, sm, FOREIGN, b ^ 1, t ^ 1))  # not for this request: must be skipped, nothing learned
             outs.append(rep_)
             pre.accept(E, b, t)
             post.accept(E, b, t)
@@ -159,6 +170,8 @@ def execute(G, c, slow=False):
             outs.append(ag.build_reply(post_cfg, m, bad, boots=fb, time=ft, encrypt=False, flags=1))
         elif inject == "badmac":
             outs.append(ag.build_reply(post_cfg, m, bad, boots=fb, time=ft, mac="zero"))
+        elif inject == "wrong_rid":
+            outs.append(ag.build_reply(post_cfg, m, bad, boots=fb, time=ft, request_id=(m["request_id"] ^ 0x1111) & 0x7FFFFFFF))
         if inject is not None and r.get("only"):
             expect_timeout.add(idx)
             return outs  # nothing acceptable follows: the call must time out and the view must stay as it was
@@ -190,7 +203,8 @@ def execute(G, c, slow=False):
     if c["discovered"] and st["probes"] < 1:
         raise core.Failure("no-discovery-probe", "%s: engine id unknown yet no probe was sent (%r)" % (info, kinds))
     skip = (2 if c.get("lost_probe") else 1) if c["mode"] == "refresh" else 0
-    if c.get("lost_probe") and not (outs[0].kind == "exc" and isinstance(outs[0].exc, TimeoutError)):
+    first_exc = G.SnmpDecodeError if c.get("probe_fault") == "garbage" else TimeoutError
+    if c.get("lost_probe") and not (outs[0].kind == "exc" and isinstance(outs[0].exc, first_exc)):
         raise core.Failure("lost-probe-outcome", "%s: refresh() whose discovery datagram was lost gave %r" % (info, outs[0]))
     if c["mode"] == "refresh" and outs[skip - 1].kind != "ok":
         raise core.Failure("refresh-failed", "%s: refresh() gave %r (message kinds %r)" % (info, outs[skip - 1], kinds))
@@ -270,7 +284,7 @@ def run(rep, tier):
                  classes=["discovered" if c["discovered"] else "engine_given", "mode:" + c["mode"], "driver:" + c["driver"],
                           "auth:%s" % c["cfg"].auth, "priv:%s" % c["cfg"].priv, "kt:" + c["cfg"].auth_kt,
                           "ctx:" + ("own" if c["report_ctx"] is None else ("empty" if c["report_ctx"] == b"" else "foreign"))]
-                 + (["lost_first_probe"] if c.get("lost_probe") else [])
+                 + (["first_probe:" + (c.get("probe_fault") or "lost")] if c.get("lost_probe") else []) + (["stray_before_first_report"] if c.get("pre_stray") else [])
                  + ["inject:%s%s" % (r["inject"], "/only" if r["only"] else "") for r in c["reqs"] if r.get("inject")])
         rep.count("messages_checked", nmsg)
 
